@@ -824,6 +824,8 @@ def sym_str(*a, **kw):
 def sym_int(x=0, base=None):
     if isinstance(x, SymInt):
         return x
+    if isinstance(x, SymEnum):
+        x = x.get()
     if isinstance(x, HexView):
         if base != 16:
             raise Escape("int(hex view, base=%r)" % (base,))
